@@ -1349,6 +1349,7 @@ func TestVerifC34RawStreams(t *testing.T) {
 		if n > 0 {
 			st.NonTrivial(vfHashHex(stream))
 		}
+		st.Sample(map[string]any{"server": vf34SrvNames[sk], "records": desc, "stream_len": len(stream), "hs_err": fmt.Sprint(o.HSErr), "read_err": fmt.Sprint(o.RdErr)})
 		vf34Verdict(rt, st, o, "raw record stream", func() string {
 			return fmt.Sprintf("server=%s %v stream=%x", vf34SrvNames[sk], desc, stream)
 		})
@@ -1368,6 +1369,7 @@ func TestVerifC34DirectedStructures(t *testing.T) {
 		}
 		o := vf34FeedServer(vf34ServerConfig(env, sk), stream)
 		st.NonTrivial("directed|" + name + "|" + vf34SrvNames[sk])
+		st.Sample(map[string]any{"directed": name, "server": vf34SrvNames[sk], "stream_len": len(stream), "hs_err": fmt.Sprint(o.HSErr), "ech_accepted": o.ECHAccepted})
 		vf34Verdict(t, st, o, "directed "+name, func() string { return fmt.Sprintf("server=%s stream=%x", vf34SrvNames[sk], stream) })
 		return o
 	}
@@ -1717,6 +1719,8 @@ func TestVerifC34InjectSweep(t *testing.T) {
 			if o.Injected {
 				st.NonTrivial(fmt.Sprintf("sweep|%s|%d|%s|%s", p.Name, cb.sk, cb.point, name))
 			}
+			st.Sample(map[string]any{"parrot": p.Name, "server": vf34SrvNames[cb.sk], "point": cb.point, "msg": name, "injected": o.Injected,
+				"server_err": fmt.Sprint(o.Srv.HSErr), "client_err": fmt.Sprint(o.CliErr)})
 			vf34JudgeInject(t, st, o, p, cb.sk, cb.point, []string{name}, raws)
 		}
 	}
